@@ -10,7 +10,7 @@ rule = ("SMA, WMA, SD, MAD, MIN, MAX, FAST, BB, CCI (last n) and ROC, ER, MFI (l
         "by a suffix; slot 1 is a fresh instance fed only the suffix; once the suffix is at least n (n+1) long, the outputs are compared at "
         "every further step: exactly for the comparison-only indicators, within tau(t)*maxmag(history) (variances for SD/BB widths; times the "
         "condition number for the ratios) for the accumulating ones. All runs are also compared bit-exactly with the float model (T1). "
-        "Every third bar case has a grid prefix (equal neighbouring typical prices with volume); plus the K7 and K8 witnesses. "
+        "Plus one 4300-input history per indicator and period in {3, 5} (seed-independent; period 5 with 10^7 x spikes). Every third bar case has a grid prefix (equal neighbouring typical prices with volume); plus the K7 and K8 witnesses. "
         "Non-trivial: distinct case whose prefix is longer than the period and whose suffix extends >= 2 steps beyond n")
 assumptions = ["condition numbers of the ratio indicators are estimated in double precision from the suffix window"]
 
@@ -51,6 +51,18 @@ def gen_cases(ctx):
                     ops += [mk(0, v), mk(1, v)]
                 cases.append(Case("%s_p%d_%d" % (ind, p, rep), ops, dump=(),
                                   meta={"ind": ind, "p": p, "need": need, "npre": npre, "nsuf": nsuf, "bars": bars}))
+    # seed-independent long histories (4300 inputs with two 10^7 x spikes, then the suffix): whatever maintenance code ran every
+    # 2^10 / 2^12 updates during the history must not be remembered either
+    for ind in LASTN + LASTN1:
+        for p in (3, 5):
+            need = p + (1 if ind in LASTN1 else 0)
+            fd = long_feed(ind, 4300 + need + 6, "plain" if p == 3 else "spike")
+            pr = (p, 0, 0, 2.0 if ind == "BB" else 0.0)
+            ops = [new_op(0, ind, pr), new_op(1, ind, pr)] + fd[:4300]
+            for o in fd[4300:]:
+                ops += [o, (o[0], 1) + tuple(o[2:])]
+            cases.append(Case("%s_long_p%d" % (ind, p), ops, dump=(),
+                              meta={"ind": ind, "p": p, "need": need, "npre": 4300, "nsuf": need + 6, "bars": ind in NO_SCALAR}))
     # K7 (known finding): on the rounding-aligned stream WMA never forgets the drift accumulated over the prefix
     from props.C01 import adversary
     adv = adversary(12000, r)
